@@ -798,6 +798,17 @@ impl LdapConnAsync {
                             self.verif_drv("DrvOp", id, verif_kind, verif_target, false);
                             return Err(LdapError::from(e));
                         } else {
+                            if tx.is_closed() {
+                                // The caller gave up (timeout or a dropped future) before the request
+                                // was dequeued, and its ID scrub may already have been processed:
+                                // keep no routing state for a reply nobody is waiting for.
+                                if let LdapOp::Single | LdapOp::Search(_) = op {
+                                    self.searchmap.remove(&id);
+                                    let mut msgmap = self.msgmap.lock().expect("msgmap mutex (caller gone)");
+                                    msgmap.1.remove(&id);
+                                    continue;
+                                }
+                            }
                             match op {
                                 LdapOp::Single => {
                                     self.resultmap.insert(id, tx);
